@@ -21,7 +21,7 @@ from .common import Check, MachineryFailure, PY, VERIF
 SPY = '''
 from beartype import beartype
 LOG = []
-def c1(fn):
+def c1_1630558(fn):
     LOG.append(("c1", fn.__module__))
     return beartype(fn)
 '''
@@ -29,10 +29,13 @@ SPY2 = '''
 from beartype import beartype
 import B          # this typechecker's package uses a module of the project
 LOG = []
-def c2(fn):
+def c2_819212(fn):
     LOG.append(("c2", fn.__module__))
     return beartype(fn)
 '''
+# the two typechecker strings are chosen so that their md5 digests (the cache tag is derived from them) agree in the
+# first 10 hex digits: a tag that keeps less than the whole digest confuses them
+CHECKER_STRINGS = {"c1": "verif_spy.c1_1630558", "c2": "verif_spy2.c2_819212"}
 IMPORTS = {"A": ["B"], "B": [], "C": ["A"]}
 
 
